@@ -435,6 +435,9 @@ impl Session {
             if r.quit && !r.ended && !r.dropped {
                 return Some("connection quitting, not yet ended".into());
             }
+            if r.ended && !r.dropped {
+                return Some("connection ended, slot not yet released".into());
+            }
         }
         for (id, c) in self.clients.iter() {
             match reg.conns.get(&c.local) {
